@@ -227,6 +227,13 @@ func (c *Ctx) Begin(caseKey string) {
 	c.mu.Unlock()
 }
 
+// Digest records the canonical outcome of a case so that the parent can compare the same case across build flavours.
+func (c *Ctx) Digest(caseKey, class, digest string) {
+	c.mu.Lock()
+	c.emit(map[string]interface{}{"t": "digest", "k": c.group + "::" + caseKey, "c": class, "d": digest})
+	c.mu.Unlock()
+}
+
 // Eval counts one oracle comparison. classKey identifies the class of the case;
 // nontrivial says whether the case is non-trivial by the property's rule.
 func (c *Ctx) Eval(classKey string, nontrivial bool) {
@@ -304,7 +311,7 @@ func (c *Ctx) Control(fired bool) {
 func (c *Ctx) Violation(sig, caseKey string, desc, want, got interface{}) {
 	c.mu.Lock()
 	defer c.mu.Unlock()
-	if c.Flavour != "" && c.Flavour != "plain" && c.Flavour != "cover" { // the cover build is the default build plus counters: same signatures
+	if c.Flavour != "" && c.Flavour != "plain" && c.Flavour != "cover" && c.Flavour != "race" { // cover and race builds are the default build plus instrumentation: same signatures
 		sig += "@" + c.Flavour
 	}
 	c.violBy[sig]++
